@@ -31,7 +31,15 @@ class Prop(common.PropertyCheck):
                    'gain': [rng.choice([None, '1', '2', '0.5', '8', '0.01']) for _ in range(D)],
                    'm': [rng.uniform(0.85, 1.25) for _ in range(D)], 'b': [rng.uniform(0, 7) for _ in range(D)],
                    'rfi_ch': rng.choice(['all', 'subset', 'one']), 'mef_ch': rng.choice(['subset', 'one', 'all']),
-                   'override': rng.random() < 0.3, 'sc_all': rng.random() < 0.5, 'seed': rng.randrange(1 << 30)}
+                   'override': rng.random() < 0.3, 'sc_all': rng.random() < 0.5, 'seed': rng.randrange(1 << 30),
+                   'sc_kind': rng.choice(['lambda', 'lambda', 'fitted']), 'nozero': rng.random() < 0.3}
+        # more events than channel values, resolutions that are not powers of two (table-driven implementations)
+        for _ in range(self.budget(12, 150)):
+            yield {'D': 2, 'res': [rng.choice([1000, 777, 3000, 8000, 1023, 5000]), rng.choice([1000, 1023, 3000])],
+                   'pne': [rng.choice(['4,1', '5,1', '4.5,1', '3,1']), rng.choice(['0,0', '4,1'])], 'gain': [None, rng.choice([None, '2'])],
+                   'm': [rng.uniform(0.85, 1.25) for _ in range(2)], 'b': [rng.uniform(0, 7) for _ in range(2)], 'rfi_ch': 'all', 'mef_ch': 'all',
+                   'override': False, 'sc_all': False, 'seed': rng.randrange(1 << 30), 'sc_kind': rng.choice(['lambda', 'fitted']), 'nozero': rng.random() < 0.3,
+                   'many': True}
 
     def build(self, case):
         import random
@@ -40,7 +48,9 @@ class Prop(common.PropertyCheck):
         ev = []
         for c in range(D):
             rr = case['res'][c]
-            col = [0, 1, rr - 2, rr - 1, rr - 1, 0] + [r.randrange(0, rr) for _ in range(14)]
+            col = [0, 1, rr - 2, rr - 1, rr - 1, 0] + [r.randrange(0, rr) for _ in range((max(case['res']) + 300) if case.get('many') else 14)]
+            if case.get('nozero'):
+                col = [v if v != 0 else 1 + r.randrange(0, 3) for v in col]
             ev.append(col)
         events = [list(row) for row in zip(*ev)]
         r.shuffle(events)
@@ -79,7 +89,8 @@ class Prop(common.PropertyCheck):
                 for lim0, lim1, nm in ((lo0, lo1, 'low'), (hi0, hi1, 'high')):
                     idx = np.nonzero(raw[:, c] == lim0)[0]
                     if len(idx) == 0:
-                        out['problems'].append('harness: no event at the %s limit of channel %d' % (nm, c))
+                        if not (case.get('nozero') and nm == 'low'):
+                            out['problems'].append('harness: no event at the %s limit of channel %d' % (nm, c))
                         continue
                     v = new[idx[0], c]
                     if bits(v) != bits(lim1):
@@ -112,7 +123,17 @@ class Prop(common.PropertyCheck):
             if case.get('sc_all'):
                 sc_cols = list(range(D))
                 r.shuffle(sc_cols)
-            scs = [(lambda m, b: (lambda x: np.sign(x) * np.exp(b) * (np.abs(x) ** m)))(case['m'][c], case['b'][c]) for c in sc_cols]
+            if case.get('sc_kind') == 'fitted':
+                # FlowCal's own fitted standard curves (exact bead-model data with slope m, intercept b)
+                scs = []
+                for c in sc_cols:
+                    m_, b_ = case['m'][c], min(case['b'][c], 5.0)
+                    lad = np.array([0., 646., 1704., 4827., 15991., 47609., 135896., 273006.])
+                    af = 300.0
+                    rfi_b = np.exp((np.log(lad + af) - b_) / m_)
+                    scs.append(FlowCal.mef.fit_beads_autofluorescence(rfi_b, lad)[0])
+            else:
+                scs = [(lambda m, b: (lambda x: np.sign(x) * np.exp(b) * (np.abs(x) ** m)))(case['m'][c], case['b'][c]) for c in sc_cols]
             sc_ch = [names[c] for c in sc_cols]
             gated_first = FlowCal.transform.to_mef(FlowCal.gate.high_low(rfi), ch2, scs, sc_ch)
             mef = FlowCal.transform.to_mef(rfi, ch2, scs, sc_ch)
